@@ -1,5 +1,11 @@
 package main
 
+import (
+	"strings"
+
+	"golang.org/x/tools/go/ssa"
+)
+
 func init() {
 	properties["C06"] = propC06
 	properties["C07"] = propC07
@@ -13,6 +19,18 @@ func propC06(w *World, r *Report) {
 	RunFirstMatch(w, r)
 	RunScratchDiscipline(w, r)
 	RunTextAppend(w, r)
+	RunFlagPrecedence(w, r)
+	RunLookaheadBound(w, r)
+	RunMarkAdvance(w, r)
+	var gt []*ssa.Function
+	for _, f := range w.LibFuncs() {
+		if strings.HasSuffix(fnPkgPath(f), "/opentype/gtab") {
+			gt = append(gt, f)
+		}
+	}
+	RunMemoKey(w, r, gt)
+	RunControl(r, "memokey", "ctlContext).filter", RunMemoKey)
+	RunControl(r, "slicealias", "ctlSliceAlias", RunSliceAlias)
 	r.Scope["library_functions_scanned"] = len(w.LibFuncs())
 }
 
